@@ -42,17 +42,39 @@ Fixpoint shape_ok (v : value) : bool :=
 Definition typed_ok (v : value) : bool :=
   match v with VObj c _ => has_ty types_C12 v (TY [AObj c]) | _ => false end.
 
+(* [eqv], [hkey], [hash_eq] of the model, with the normal forms / keys of x and y computed once *)
 Definition check (c : case) : bool :=
+  let nx := nfe T_C12 (cx c) in
+  let ny := nfe T_C12 (cy c) in
+  let hx := hkey T_C12 (cx c) in
+  let hy := hkey T_C12 (cy c) in
   shape_ok (cx c) && shape_ok (cy c) && typed_ok (cx c) && typed_ok (cy c) &&
-  eqb_obs_b (Some (eqv T_C12 (cx c) (cy c))) (o_eq c) &&
-  eqb_obs_b (Some (eqv T_C12 (cy c) (cx c))) (o_qe c) &&
-  Bool.eqb (is_some (hkey T_C12 (cx c))) (o_hx c) &&
-  Bool.eqb (is_some (hkey T_C12 (cy c))) (o_hy c) &&
-  match hash_eq T_C12 (cx c) (cy c), o_heq c with
-  | Some b, OB b' => Bool.eqb b b'
-  | None, OBExc => true
-  | _, _ => false
+  eqb_obs_b (Some (peq nx ny)) (o_eq c) &&
+  eqb_obs_b (Some (peq ny nx)) (o_qe c) &&
+  Bool.eqb (is_some hx) (o_hx c) &&
+  Bool.eqb (is_some hy) (o_hy c) &&
+  match hx, hy, o_heq c with
+  | Some a, Some b, OB b' => Bool.eqb (peq a b) b'
+  | None, _, OBExc | _, None, OBExc => true
+  | _, _, _ => false
   end.
+
+(* [check] is the conjunction written with the model's own definitions *)
+Lemma check_spec c : check c =
+  (shape_ok (cx c) && shape_ok (cy c) && typed_ok (cx c) && typed_ok (cy c) &&
+   eqb_obs_b (Some (eqv T_C12 (cx c) (cy c))) (o_eq c) &&
+   eqb_obs_b (Some (eqv T_C12 (cy c) (cx c))) (o_qe c) &&
+   Bool.eqb (is_some (hkey T_C12 (cx c))) (o_hx c) &&
+   Bool.eqb (is_some (hkey T_C12 (cy c))) (o_hy c) &&
+   match hash_eq T_C12 (cx c) (cy c), o_heq c with
+   | Some b, OB b' => Bool.eqb b b'
+   | None, OBExc => true
+   | _, _ => false
+   end).
+Proof.
+  unfold check, eqv, hash_eq. cbv zeta.
+  destruct (hkey T_C12 (cx c)); destruct (hkey T_C12 (cy c)); destruct (o_heq c); reflexivity.
+Qed.
 
 (* which conjunct failed (printed for disagreeing cases only) *)
 Definition explain (c : case) : list bool :=
